@@ -8,7 +8,7 @@ from .simsched import Scheduler, SimQueue
 
 
 class FCfg:
-    def __init__(self, n_workers=2, mulp=False, calls=((3, 1),), exact=False, none_inputs=False):
+    def __init__(self, n_workers=2, mulp=False, calls=((3, 1),), exact=False, none_inputs=False, input_kind=0, idle_gen=False):
         """calls: (items, chunk_size) — chunk size is 1 for mul_p_map;
         exact: the caller takes exactly as many results as there are items (zip / islice style) and drops the generator
         instead of running it into StopIteration (`Cfg.exact` in the model: no further poll of the result queue after the
@@ -18,6 +18,10 @@ class FCfg:
         self.calls = [tuple(c) for c in calls]
         self.exact = exact
         self.none_inputs = none_inputs  # see poolsim.Cfg
+        self.input_kind = input_kind  # generator / list / tuple / one-shot iterator, rotating per call
+        # before every call the caller also creates a call object that it never iterates (dropped at the end): a generator
+        # that was not started has done nothing
+        self.idle_gen = idle_gen
 
     def cap(self):
         return multiprocessing.cpu_count() if self.mulp else self.n_workers
@@ -27,7 +31,8 @@ class FCfg:
         return f"{'cfgx' if self.exact else 'cfg'} {self.n_workers} {self.cap()} {1 if self.mulp else 0} {chunks}".rstrip()
 
     def to_json(self):
-        return dict(n_workers=self.n_workers, mulp=self.mulp, calls=self.calls, exact=self.exact, none_inputs=self.none_inputs)
+        return dict(n_workers=self.n_workers, mulp=self.mulp, calls=self.calls, exact=self.exact, none_inputs=self.none_inputs,
+                    input_kind=self.input_kind, idle_gen=self.idle_gen)
 
 
 def f(x):
@@ -92,16 +97,24 @@ class FSimEnv:
 
     def caller(self):
         from windpyutils.parallel import pools, maps
+        def shaped(k, data):
+            kind = (self.cfg.input_kind + k) % 4
+            return [lambda: data, lambda: list(data), lambda: tuple(data), lambda: iter(list(data))][kind]()
+
         if self.cfg.mulp:
             for k, (n, cs) in enumerate(self.cfg.calls):
-                data = (core.pool_input(k, i, self.cfg.none_inputs) for i in range(n))
+                data = shaped(k, (core.pool_input(k, i, self.cfg.none_inputs) for i in range(n)))
                 self.results.append(list(maps.mul_p_map(f, data, self.cfg.n_workers)))
         else:
             with pools.FunctorMap(f, self.cfg.n_workers) as m:
                 for k, (n, cs) in enumerate(self.cfg.calls):
                     res = []
                     self.results.append(res)
-                    it = m((core.pool_input(k, i, self.cfg.none_inputs) for i in range(n)), cs)
+                    if self.cfg.idle_gen:
+                        ghosts = getattr(self, "ghosts", [])
+                        ghosts.append(m(iter([900 + k, 901 + k, 902 + k]), cs))
+                        self.ghosts = ghosts
+                    it = m(shaped(k, (core.pool_input(k, i, self.cfg.none_inputs) for i in range(n))), cs)
                     if self.cfg.exact and n > 0:
                         for _ in range(n):
                             res.append(next(it))
